@@ -15,8 +15,9 @@ import numpy as np
 
 from check import Failure
 from sfv import gen
+from sfv.props import c14_targets_gen as tgen       # util.slices_from_targets translated from the source (py2lean_targets)
 
-TARGETS = ['SFModel.Props.C14']
+TARGETS = ['SFModel.Props.C14'] + tgen.TARGETS
 THEOREMS = [
     'SF.C14.directional_refines', 'SF.C14.directional_backward_refines', 'SF.C14.directional_axis0_refines',
     'SF.C14.series_directional_refines', 'SF.C14.sided_refines', 'SF.C14.sided_axis0_refines',
@@ -27,7 +28,7 @@ THEOREMS = [
     # pinned-tree behaviour (historical definitions): the three repaired deviations as proved counterexamples
     'SF.C14.pinned_directional_backward_counterexample', 'SF.C14.pinned_dropna_columns_oneD_counterexample',
     'SF.C14.pinned_sided_axis0_zero_rows_counterexample',
-]
+] + tgen.THEOREMS
 PARTIAL = []
 CORR_ONLY = ['dtype resolution of filled blocks (resolve_dtype / astype): compared with == on the real result',
              'label alignment of Series.fillna(Series) / Frame.fillna(Frame) (reindex, isin): the model takes the aligned '
@@ -40,7 +41,7 @@ RULE = ('Frames: shape <= 3x4 (quick: seeded samples; thorough: EVERY missing pa
         'fillna_leading/trailing (both axes), count(both axes); Series of length <= 7: every pattern x limit 0..n+1 (quick: <= 4 plus samples). '
         'non-trivial = at least one missing and one non-missing cell; distinct = distinct case JSON')
 TRUSTED = ['the integer-identifier encoding of cells (harness/sfv/props/c14.py: ids_of / value_of)',
-           'NumPy isnan / isnat / == on single cells when comparing the real result with the expected source cell']
+           'NumPy isnan / isnat / == on single cells when comparing the real result with the expected source cell'] + tgen.TRUSTED
 ASSUMPTIONS = ['limit = 0 means unlimited (series.py docstring; checked against the real code by the oracle)',
                'zero-column frames are outside the claim (TypeBlocks.from_blocks of no block raises for every operation)']
 BUDGET = {'quick': 70, 'thorough': 780}
@@ -329,6 +330,8 @@ def other_grid(c):
 
 
 def model_lines(c):
+    if c['k'] == 'tgrid':
+        return tgen.model_lines(c)
     if c['k'] == 'series':
         ids = [0 if p else 1 + i for i, p in enumerate(c['pat'])]
         w = '(' + ' '.join(map(str, ids)) + ')'
@@ -437,6 +440,8 @@ def value_lookup(b, c):
 
 # ------------------------------------------------------------------ evaluate
 def evaluate(ctx, c, outs):
+    if c['k'] == 'tgrid':
+        return tgen.evaluate(ctx, c, outs)
     if c['k'] == 'series':
         return eval_series(ctx, c, outs)
     return eval_frame(ctx, c, outs)
@@ -743,6 +748,8 @@ def classify(f):
 
 # ------------------------------------------------------------------ generators
 def nontrivial(c):
+    if c['k'] == 'tgrid':
+        return tgen.nontrivial(c)
     if c['k'] == 'series':
         return 0 < sum(c['pat']) < len(c['pat'])
     flat = [x for r in c['pat'] for x in r]
@@ -885,6 +892,7 @@ def extra(ctx):
 
 
 def cases(ctx):
+    yield from tgen.cases(ctx)      # translated slices_from_targets vs the real generator (grid)
     rng = ctx.rng('main')
     quick = ctx.tier == 'quick'
     # zero-row frames (columns but no rows), every layout of up to three columns: all fills return the empty frame
